@@ -3,7 +3,7 @@ import Retro.Drv.RenderCommon
 namespace Retro.Drv.C02
 open Retro Retro.Render Retro.Drv Retro.Drv.RenderCommon
 
-def handle (case0 impl : List String) : Verdict :=
+def handleCore (case0 impl : List String) : Verdict :=
   let needle := case0.contains "needle=1"
   let case := case0.filter fun t => !t.startsWith "needle="
   let s := parseScene case
@@ -42,5 +42,9 @@ def handle (case0 impl : List String) : Verdict :=
       match bad with
       | some msg => v.withDiff true msg
       | none => v
+
+/-- `handleCore` plus the Float32 diagnostic tag (`RenderCommon.withF32`; never changes the status). -/
+def handle (case impl : List String) : Verdict :=
+  withF32 case impl (handleCore case impl)
 
 end Retro.Drv.C02
